@@ -34,13 +34,13 @@ ASSUMPTIONS = [
     "bound methods are equal iff they wrap the same function (the library's documented intent for method-valued attributes)",
     "exact truth value of == between an instance and an instance of a sub/superclass is not judged (only symmetry and transitivity)",
 ]
-KINDS = ["int", "str", "list", "leaf", "method", "func", "cls", "mod", "any"]
-ANN = {"int": "int", "str": "str", "list": "List[int]", "leaf": "Leaf", "method": "Callable", "func": "Callable", "cls": "type", "mod": "Any", "any": "Any"}
+KINDS = ["int", "str", "list", "leaf", "method", "func", "cls", "mod", "any", "masked"]
+ANN = {"int": "int", "str": "str", "list": "List[int]", "leaf": "Leaf", "method": "Callable", "func": "Callable", "cls": "type", "mod": "Any", "any": "Any", "masked": "Callable"}
 
 
 def GATES(tier):
     return [("comparisons_judged", 2000), ("one_off_pairs", 300), ("triples_checked", 200), ("copies_checked", 100), ("reprs_checked", 300),
-            ("repr_self_reference", 10), ("repr_indented", 10), ("method_before_difference", 20), ("subclass_pairs", 50)] + [(f"diff_kind:{k}", 5) for k in KINDS]
+            ("repr_self_reference", 10), ("repr_indented", 10), ("method_before_difference", 20), ("subclass_pairs", 50), ("repr_keyed_child_missing_key", 10)] + [(f"diff_kind:{k}", 5) for k in KINDS]
 
 
 SRC_HEAD = '''
@@ -55,6 +55,11 @@ def f2(): return 2
 class Leaf:
     v: int = 0
 
+@spec_class(key="k", bootstrap=True)
+class KL:
+    k: str
+    v: int = 0
+
 '''
 
 
@@ -67,6 +72,9 @@ def make_source(kinds, flags, boot):
         if not rep:
             opts.append("repr=False")
         lines.append(f"    a{i}: {ANN[k]}" + (f" = Attr({', '.join(opts)})" if opts else ""))
+    for i, k in enumerate(kinds):
+        if k == "masked":  # the attribute is masked by a method of the same name unless overridden on the instance
+            lines += [f"    def a{i}(self):", f"        return 'class-level a{i}'"]
     lines += ["    def helper(self):", "        return 1", "    def other(self):", "        return 2", ""]
     lines += [f"@spec_class(bootstrap={boot})", "class F(E):", "    extra: int = 0", "", "class G(E):", "    pass", ""]
     return "\n".join(lines)
@@ -87,7 +95,7 @@ def value(ns, kind, which, inst):
         return ns["Leaf"](v=which + 1)
     if kind == "method":
         return [inst.helper, inst.other][which]
-    if kind == "func":
+    if kind in ("func", "masked"):
         return [ns["f1"], ns["f2"]][which]
     if kind == "cls":
         return [int, str][which]
@@ -176,6 +184,8 @@ def run(ctx, params):
         if ci % 3 == 0 and "method" not in kinds[:-1]:
             kinds[rng.randrange(0, n - 1)] = "method"  # a method-valued attribute *before* others
         flags = [(rng.random() < 0.8, rng.random() < 0.8) for _ in range(n)]
+        # a masked attribute's class-level value is the method itself, so it cannot also carry Attr(...) flags
+        flags = [(True, True) if k == "masked" else f for k, f in zip(kinds, flags)]
         boot = rng.random() < 0.5
         src = make_source(kinds, flags, boot)
         ns = cg.exec_module(src, prefix="verif_c10").__dict__
@@ -290,6 +300,13 @@ def run(ctx, params):
             setattr(p, f"a{anys[0]}", q)
             setattr(q, f"a{anys[0]}", p)
             specials.append(("cycle", p))
+            # a keyed nested spec instance whose key is missing (rendered compactly as a child, and inside containers)
+            for how in ("direct", "in_list", "in_dict"):
+                kl = ns["KL"]("a")
+                del kl.k
+                s6 = build(ns, "E", kinds, base_choice)
+                setattr(s6, f"a{anys[0]}", kl if how == "direct" else ([kl, kl] if how == "in_list" else {"x": kl, "long key to force the indented form " * 3: kl}))
+                specials.append((f"keyed_child_missing_key:{how}", s6))
         strs = [i for i, k in enumerate(kinds) if k == "str"]
         if strs:
             s3 = build(ns, "E", kinds, base_choice)
@@ -305,6 +322,8 @@ def run(ctx, params):
             specials.append(("empty_container", s5))
         for label, x in [("pool", t[2]) for t in insts] + specials:
             ctx.count("reprs_checked")
+            if label.startswith("keyed_child_missing_key"):
+                ctx.count("repr_keyed_child_missing_key")
             if label in ("self_reference", "self_in_container", "cycle"):
                 ctx.count("repr_self_reference")
             try:
